@@ -65,6 +65,7 @@ func CreateLevel(path string, h hash.Hash, rsum, dsum []byte, level int) (*File,
 	}
 
 	_, ret := f.Write(make([]byte, h.Size()*3))
+	verifStep(f, "placeholder-written")
 
 	hd := Header{rsum, dsum, nil}
 	rd := flate.NewReader(f)
@@ -100,6 +101,7 @@ func (f *File) Write(p []byte) (int, error) {
 	if f.wr == nil {
 		return 0, io.EOF
 	}
+	defer verifStep(f.f, "block-written")
 	return f.wr.Write(p)
 }
 
@@ -110,6 +112,7 @@ func (f *File) Close() error {
 
 	if f.wr != nil {
 		ret := f.wr.Close()
+		verifStep(f.f, "body-closed")
 
 		if _, err := f.f.Seek(int64(f.h.Size())*3, io.SeekStart); ret == nil {
 			ret = err
@@ -121,6 +124,7 @@ func (f *File) Close() error {
 		}
 
 		f.hd.BodySum = f.h.Sum(nil)
+		verifStep(f.f, "body-hashed")
 		if _, err := f.f.Seek(0, io.SeekStart); ret == nil {
 			ret = err
 		}
@@ -128,6 +132,7 @@ func (f *File) Close() error {
 		if _, err := f.hd.WriteTo(f.f); ret == nil {
 			ret = err
 		}
+		verifStep(f.f, "header-written")
 
 		return ret
 	}
